@@ -1001,6 +1001,12 @@ func compileBranchCondition(context *funcContext, reg int, expr ast.Expr, thenla
 			return
 		}
 	case *ast.TrueExpr, *ast.NumberExpr, *ast.StringExpr:
+		if nex, ok := expr.(*ast.NumberExpr); ok {
+			// a constant condition is not evaluated, but its numeral must still be one
+			if _, err := parseNumber(nex.Value); err != nil {
+				raiseCompileError(context, sline(nex), "malformed number near '%s'", nex.Value)
+			}
+		}
 		if !hasnextcond {
 			return
 		}
@@ -1702,6 +1708,12 @@ func compileLogicalOpExprAux(context *funcContext, reg int, expr ast.Expr, ec *e
 		}
 		return
 	case *ast.NumberExpr, *ast.StringExpr:
+		if nex, ok := expr.(*ast.NumberExpr); ok {
+			// the constant may not be evaluated, but its numeral must still be one
+			if _, err := parseNumber(nex.Value); err != nil {
+				raiseCompileError(context, sline(nex), "malformed number near '%s'", nex.Value)
+			}
+		}
 		if thenlabel == lb.e {
 			compileExpr(context, reg, expr, ec)
 			code.AddASbx(OP_JMP, 0, lb.e, sline(expr))
